@@ -77,7 +77,16 @@ async fn handler_lifecycle_one_instance_one_announcement_per_stop() {
     let p4 = store.append(Frame::builder("ping", ctx).build()).unwrap();
     wait_for(&store, |fs| fs.iter().any(|f| f.topic == "boom.unregistered"), "boom.unregistered").await;
     let _p5 = store.append(Frame::builder("ping", ctx).build()).unwrap();
+    // a handler that retires itself: its own <name>.unregister stops it like anybody else's
+    let once = store.append(Frame::builder("once.register", ctx).hash(store.cas_insert(r#"{run: {|frame| if $frame.topic != "ping" { return }; "bye" | .append once.unregister; "done" }}"#).await.unwrap()).build()).unwrap();
+    wait_for(&store, |fs| fs.iter().any(|f| f.topic == "once.registered"), "once.registered").await;
+    tokio::time::sleep(Duration::from_millis(300)).await;
+    let _p6 = store.append(Frame::builder("ping", ctx).build()).unwrap();
+    wait_for(&store, |fs| fs.iter().any(|f| f.topic == "once.unregistered"), "C14/C16: once.unregistered after the handler appended its own once.unregister").await;
+    let _p7 = store.append(Frame::builder("ping", ctx).build()).unwrap();
     let all = quiet(&store).await;
+    assert_eq!(all.iter().filter(|f| f.topic == "once.out").count(), 1, "C14/C16: a handler that unregistered itself processes nothing further");
+    assert_eq!(all.iter().filter(|f| f.topic == "once.unregistered" && meta_str(f, "handler_id") == once.id.to_string()).count(), 1, "C16: exactly one once.unregistered");
     let b: Vec<&Frame> = all.iter().filter(|f| f.topic == "bad.unregistered").collect();
     assert_eq!(b.len(), 1, "C16: an invalid registration is announced exactly once");
     assert_eq!(meta_str(b[0], "handler_id"), bad.id.to_string());
